@@ -360,7 +360,18 @@ def job_yaml_roundtrip(j):
     return out
 
 
-JOBS = {'yaml_roundtrip': job_yaml_roundtrip, 'update_seq': job_update_seq, 'load_tree': job_load_tree, 'estimate': job_estimate, 'libinfo': job_libinfo, 'corr': job_corr}
+def job_groupdim(j):
+    from pmutt import constants as pc
+    corr = get_lib(j['lib'])[j['name']]['thermochem']
+    res = {'vals': eval_props(corr, j['Ts'], ('cp', 'h', 's', 'g')), 'has_table': bool(corr.ND_Cp_data), 'T_ref': float(corr.T_ref), 'dim': {}, 'Rtab': {}}
+    for u in j['units']:
+        res['Rtab'][u + '/K'] = pc.R(u + '/K')
+        res['dim'][u] = {nm: [call(getattr(corr, nm), T, *args) for T in j['Ts']]
+                         for nm, args in (('get_H', (u,)), ('get_G', (u,)), ('get_S', (u + '/K',)), ('get_Cp', (u + '/K',)))}
+    return res
+
+
+JOBS = {'groupdim': job_groupdim, 'yaml_roundtrip': job_yaml_roundtrip, 'update_seq': job_update_seq, 'load_tree': job_load_tree, 'estimate': job_estimate, 'libinfo': job_libinfo, 'corr': job_corr}
 
 
 def main():
